@@ -2535,14 +2535,24 @@ class Head(Expr):
                     Partitions(self.frame, partitions), self.n, safe=False
                 )
 
-            safe = True if npartitions == 1 and self.frame.npartitions != 1 else False
-            frame = BlockwiseHead(
-                Partitions(self.frame, partitions), self.n, npartitions, safe
-            )
+            # a negative n takes what is there: there are no "insufficient elements"
+            safe = npartitions == 1 and self.frame.npartitions != 1 and self.n >= 0
+            if self.n < 0 and npartitions != 1:
+                # all but the last rows of the concatenated partitions: every
+                # row of the single partitions is needed
+                frame = Partitions(self.frame, partitions)
+            else:
+                frame = BlockwiseHead(
+                    Partitions(self.frame, partitions), self.n, npartitions, safe
+                )
             if npartitions != 1:
                 from dask_expr import Repartition
 
-                safe = npartitions != self.frame.npartitions and npartitions != -1
+                safe = (
+                    npartitions != self.frame.npartitions
+                    and npartitions != -1
+                    and self.n >= 0
+                )
                 frame = BlockwiseHead(
                     Repartition(frame, new_partitions=1), self.n, 1, safe
                 )
